@@ -55,4 +55,5 @@ def run(prog: Program, col: Collector, tier: str, refs: Optional[Refs] = None, c
     col.rule("R02.20", "integrating against a Delta substitutes the points of the integrated names only", floor=1)
     c04._delta_integrate(prog, col, refs, cat)
     algebra.r_nested_fusion_same_red_op(prog, col, refs, cat, "R02.21")
+    algebra.r_contraction_result_reduces(prog, col, refs, cat, "R02.22")
     return col
